@@ -12,5 +12,5 @@ PROP = dict(
 META = dict(
     technique="Lean 4 proof that no primary rune (all of Int) yields a control byte or C1 scalar in the cell payload, from the regenerated width table by kernel evaluation + strict tokenizer (Lean reference emulator) over the implementation's bytes for draw histories and every code point",
     text="payload_clean: for every rune value the payload of the cell (GetContent substitution + UTF-8 encoding) contains no C0 byte, no DEL and encodes no C1 scalar; width-table obligations re-checked on the regenerated ranges. Tcell.Props.C09Acs: the strings the draw path writes for ACS glyphs (the strings buildAcsMap composed, written verbatim with writeString, for the variant the tree implements) contain no `$<` residue on any database entry once fixes/C17-acs-strip-padding.patch is in the tree (acs_strings_no_residue; pinned counterexample acs_residue_unstripped: vt220), and are accepted by the strict tokenizer on every ECMA entry (acs_strings_accepted; the PC-font C0 positions of ansi/cygwin/pcansi listed exactly by acs_pc_font_controls). Every byte stream the implementation writes in draw histories and in the all-code-points sweep is accepted by the strict reference tokenizer with no complaint and ends in ground state.",
-    note="Symbolic: cup for ALL positions on the 22 XtermLike entries (C01B.cup_accepted_all), closed forms of setaf/setab/setfgbg/RGB/underline-colour expansions for all parameters (LayerB.parm_*), and output_wellformed_partial: over every draw history the strict tokenizer accepts every byte the model writes, modulo CapsFx — which is proved for the 22 XtermLike entries (C01B.db_output_wellformed: no CapsFx hypothesis; styles without hyperlink, fitted colours any palette entry). The remaining expansions are validated (reference tokenizer on implementation bytes and on all DB strings, param_caps_accepted_samples).",
+    note="Symbolic: cup (with or without $<n> padding) for ALL positions on the 41 entries of the class XtermLike = every ECMA-48 entry of the database except the four corner-trick ones (C01B.cup_accepted_all, db_layerB, db_outside), closed forms of setaf/setab/setfgbg (five families of spellings: 3n, %{30}%+, conditional 256, always 38;5;n, colon 38:5:n)/RGB/underline-colour expansions for all parameters (LayerB.parm_*), and output_wellformed_partial: over every draw history the strict tokenizer accepts every byte the model writes, modulo CapsFx — which is proved for those 41 entries (C01B.db_output_wellformed: no CapsFx hypothesis; styles without hyperlink, fitted colours any palette entry; incl. monochrome entries, entries with padding, without civis/cnorm, without hyperlink strings; start state Quiet). The remaining expansions are validated (reference tokenizer on implementation bytes and on all DB strings, param_caps_accepted_samples).",
 )
